@@ -46,6 +46,7 @@ type c13Case struct {
 	Redirect string      `json:"redirect,omitempty"` // url: "<status>;<kind>" - the backend answers the handshake with this redirect
 	Then     string      `json:"then,omitempty"`     // url: after the open, the backend drops the websocket ("drop-abrupt" | "drop-graceful") and the client keeps using the session
 	Decline  int         `json:"decline,omitempty"`  // url: the backend answers the first handshake of this open with this status and accepts a second one
+	Cancel   bool        `json:"cancel,omitempty"`   // nonshim: the client cancels the request context while the wrapped handler is running
 	BodyLen  int         `json:"body_len,omitempty"` // nonshim: generate a body of this many bytes from Seed instead of B64
 	Chunked  bool        `json:"chunked,omitempty"`  // nonshim: send the body with Transfer-Encoding: chunked
 	N        int         `json:"n,omitempty"`        // burst: concurrent goroutines
@@ -88,7 +89,12 @@ type c13Seen struct {
 	method, url, uri, host, proto string
 	header                        http.Header
 	body                          []byte
+	ctxValue                      interface{} // what the request context holds under the harness' key
+	sawCancel                     bool        // the handler waited and saw ctx.Done() fire
+	waited                        bool
 }
+
+type c13CtxKey struct{}
 
 type c13Wrapped struct {
 	mu   sync.Mutex
@@ -97,21 +103,37 @@ type c13Wrapped struct {
 }
 
 type c13Resp struct {
-	status int
-	header http.Header
-	body   []byte
+	status  int
+	header  http.Header
+	body    []byte
+	started chan struct{} // non-nil: the handler announces itself and waits for the request context to be cancelled
+	wait    time.Duration
 }
 
 func (w *c13Wrapped) ServeHTTP(rw http.ResponseWriter, r *http.Request) {
 	id := r.Header.Get("X-Verif-Id")
 	body, _ := io.ReadAll(r.Body)
+	seen := &c13Seen{method: r.Method, url: r.URL.String(), uri: r.RequestURI, host: r.Host, proto: r.Proto, header: r.Header.Clone(), body: body,
+		ctxValue: r.Context().Value(c13CtxKey{})}
 	w.mu.Lock()
-	w.seen[id] = &c13Seen{r.Method, r.URL.String(), r.RequestURI, r.Host, r.Proto, r.Header.Clone(), body}
+	w.seen[id] = seen
 	resp := w.resp[id]
 	w.mu.Unlock()
 	if resp == nil {
 		rw.WriteHeader(599)
 		return
+	}
+	if resp.started != nil { // the client is about to abandon this request: the normal path must get to know
+		close(resp.started)
+		saw := false
+		select {
+		case <-r.Context().Done():
+			saw = true
+		case <-time.After(resp.wait):
+		}
+		w.mu.Lock()
+		seen.waited, seen.sawCancel = true, saw
+		w.mu.Unlock()
 	}
 	for k, v := range resp.header {
 		rw.Header()[k] = v
@@ -396,7 +418,30 @@ func c13NonShim(c c13Case, h http.Handler, w *c13Wrapped, dials *c13Dials, b *sh
 		return res
 	}
 	dials.take()
-	a := shimStart(h, nil, "", req).wait(10 * time.Second)
+	// the request carries a context of its own, as every request served by a real server does
+	ctxVal := "ctx-of-" + c.ID
+	ctx, cancel := context.WithCancel(context.WithValue(context.Background(), c13CtxKey{}, ctxVal))
+	defer cancel()
+	req = req.WithContext(ctx)
+	attempt := func(wait time.Duration) shimAnswer {
+		if c.Cancel {
+			w.mu.Lock()
+			resp.started, resp.wait = make(chan struct{}), wait
+			started := resp.started
+			w.mu.Unlock()
+			p := shimStart(h, nil, "", req)
+			select {
+			case <-started:
+				cancel() // the client goes away mid-exchange
+			case a := <-p.done: // answered without ever reaching the wrapped handler
+				return a
+			case <-time.After(10 * time.Second):
+			}
+			return p.wait(wait + 10*time.Second)
+		}
+		return shimStart(h, nil, "", req).wait(10 * time.Second)
+	}
+	a := attempt(5 * time.Second)
 	res.Status = a.Status
 	res.Dials = dials.take()
 	w.mu.Lock()
@@ -421,6 +466,12 @@ func c13NonShim(c c13Case, h http.Handler, w *c13Wrapped, dials *c13Dials, b *sh
 		}
 		res.Violations = append(res.Violations, fmt.Sprintf("C13:nonshim-not-forwarded:%s|%s never reached the wrapped handler; answered %d %s", c.Class, what, a.Status, shimTrunc(string(a.Body), 120)))
 		return res
+	}
+	if seen.ctxValue != ctxVal {
+		res.Violations = append(res.Violations, fmt.Sprintf("C13:nonshim-context:value-lost|%s: the request's context carried a value; at the wrapped handler the context holds %v under that key (the request no longer has its own context)", what, seen.ctxValue))
+	}
+	if c.Cancel && seen.waited && !seen.sawCancel {
+		res.Violations = append(res.Violations, fmt.Sprintf("C13:nonshim-context:cancel-not-propagated|%s: the client cancelled the request's context while the wrapped handler was running; 5s later the handler's context was still not done", what))
 	}
 	var diffs []string
 	if seen.method != ref.Method {
